@@ -781,8 +781,11 @@ class Pickled(OpcodeSequence):
     @property
     def properties(self) -> ASTProperties:
         if self._properties is None:
-            self._properties = ASTProperties()
-            self._properties.visit(self.ast)
+            # only cache the properties once they have been computed: if interpreting the pickle
+            # raises, a later query must raise again instead of seeing an empty summary
+            properties = ASTProperties()
+            properties.visit(self.ast)
+            self._properties = properties
         return self._properties
 
     @property
